@@ -3,7 +3,8 @@ import num
 from props import numfam
 
 LEVEL = "other"
-THRESHOLDS = {("unif", 3, "double"): (2.5e-2, 3e-1), ("unif", 5, "double"): (1e-3, 1.2e-2), ("unif", 7, "double"): (2.5e-5, 5e-4), ("unif", 5, "float"): (1e-3, 1.2e-2)}
+# 2x the supremum over single well-separated pairs found by tools/calibrate_num.py (0.027/0.247, 1.3e-3/2.6e-2, 5.7e-5/2.64e-3)
+THRESHOLDS = {("unif", 3, "double"): (6e-2, 5e-1), ("unif", 5, "double"): (2.6e-3, 5.2e-2), ("unif", 7, "double"): (1.2e-4, 5.3e-3), ("unif", 5, "float"): (2.6e-3, 5.2e-2)}
 
 
 def run(rep, tier, seed, replay, proof_ok, proof_msg):
